@@ -11,6 +11,9 @@ structure St where
   feeds : List (String × Feed)
   dpStart : Nat
   dpOffset : Nat
+  /-- querier cases: the model's shared maximum, and (independently) the greatest height the implementation returned -/
+  maxH : Nat := 0
+  seenMax : Nat := 0
 
 def be64 (n : Nat) : List UInt8 := (List.range 8).map fun i => ((n >>> (8 * (7 - i))) % 256).toUInt8
 
@@ -35,6 +38,24 @@ def parseFeeds (j : Json) : Option (List (String × Feed)) :=
 
 def step (st0 : St) (j : Json) : Except String (St × Json × List Fired) := do
   let op ← jstr j "op"
+  if op == "query" then
+    -- grogu's multi-node query helper: the answer returned is the newest one, and never older than one returned before
+    let answers ← (← jarr j "answers").mapM fun e => do
+      let h ← asInt e
+      pure (if h < 0 then none else some h.toNat)
+    let out := (j.getObjVal? "out").toOption.getD Json.null
+    let ih ← jint out "height"
+    let (m, r) := queryStep st0.maxH answers
+    let mut fired : List Fired := []
+    let mut seen := st0.seenMax
+    if ih ≥ 0 then
+      if ih.toNat < st0.seenMax then
+        fired := fired ++ [{ name := "stale_chain_view_accepted", detail := mkObj [("returnedHeight", ji ih), ("returnedBefore", jn st0.seenMax)] }]
+      if !(answers.any (· == some ih.toNat)) then
+        fired := fired ++ [{ name := "returned_answer_is_no_nodes_answer", detail := mkObj [("returnedHeight", ji ih)] }]
+      seen := max seen ih.toNat
+    let mout := mkObj [("height", match r with | some h => jn h | none => ji (-1)), ("refused", jb r.isNone)]
+    return ({ st0 with maxH := m, seenMax := seen }, mout, fired)
   if op != "tick" then throw s!"unknown op {op}"
   -- the chain's current-feed list may have changed before this round
   let st : St := match parseFeeds j with | some f => { st0 with feeds := f } | none => st0
@@ -73,6 +94,10 @@ def step (st0 : St) (j : Json) : Except String (St × Json × List Fired) := do
     if e != "" && lag ≤ timeBuffer && pendingBefore.isEmpty && !idec.isEmpty then
       fired := fired ++ [{ name := "decided_price_rejected_by_chain", detail := mkObj [("err", js e), ("decided", tj idec), ("now", ji now), ("lag", ji lag)] }]
   | none => pure ()
+  -- a validator the chain would refuse (not bonded, or not oracle-active) submits nothing: whatever it sent would be rejected
+  let mayFeed := (jbool j "mayFeed").toOption.getD true
+  if !mayFeed && !idec.isEmpty then
+    fired := fired ++ [{ name := "prices_decided_for_a_validator_the_chain_refuses", detail := mkObj [("decided", tj idec), ("now", ji now)] }]
   for (sid, _, _) in idec do
     if !nonPending.contains sid then
       fired := fired ++ [{ name := "signal_submitted_while_in_flight", detail := js sid }]
@@ -91,7 +116,7 @@ def step (st0 : St) (j : Json) : Except String (St × Json × List Fired) := do
       if !xs.isEmpty then
         fired := fired ++ [{ name := "signal_marked_in_flight_after_its_submission_finished", detail := Json.arr xs }]
     | _ => pure ()
-  let mout := mkObj [("ran", jb true), ("decided", tj expect), ("deliveries", jl deliveries), ("released", jb true), ("waited", jb waited),
+  let mout := mkObj [("ran", jb mayFeed), ("decided", tj expect), ("deliveries", jl deliveries), ("released", jb true), ("waited", jb waited),
     ("pendingAfter", if waited then jl [] else (out.getObjVal? "pendingAfter").toOption.getD Json.null)]
   -- compare decisions as sets: the implementation iterates a map
   let iout := out.setObjVal! "decided" (tj idec)
@@ -109,4 +134,4 @@ def initSt (j : Json) : St :=
   { val := Exec.ofHex hex, cooldown := (jint j "cooldown").toOption.getD 0, feeds := feeds,
     dpStart := (jnat j "dpStart").toOption.getD 50, dpOffset := (jnat j "dpOffset").toOption.getD 30 }
 
-def main : IO UInt32 := runDriver { init := initSt, step := step }
+def main : IO UInt32 := runDriver { init := initSt, step := step, resync := some (fun _ st _ => pure st) }
